@@ -8,6 +8,9 @@
 //   basic     random basic layouts, serialised with serde and reloaded (C15)
 //   keyname   every key name the tool knows, in every position, and near misses
 //   SUBST     single-scalar substitutions in row / repeat names (case mapping)
+//   text      the JSON text layer (loader_text.rs): the real serde_json printers and readers
+// Every input Value is also written as a layout FILE (pretty, compact or re-spaced text) and read by the real
+// layout_loading::load_layout_from_file; the answer must be the in-memory one.
 // and writes one record per case for ocaml/loader_check.ml (format: see there).
 use crate::keys::{KeyCode, Event, Mapping, Repeat, Layout};
 use crate::key_transforms::Mapper;
@@ -18,6 +21,12 @@ use std::collections::BTreeMap;
 use std::fmt::Write as FmtWrite;
 use std::io::Write;
 use std::panic::{catch_unwind, AssertUnwindSafe};
+
+#[path = "loader_text.rs"]
+pub mod text;
+
+// texts longer than this are saved and reloaded by the real code but not sent to the model's printer/reader
+const TEXT_LIMIT: usize = 200_000;
 
 // ---------------------------------------------------------------- encoding
 
@@ -162,7 +171,7 @@ struct Stats {
   err_kinds: BTreeMap<String, usize>,
   size_hist: BTreeMap<String, usize>,     // number of source mappings
   out_hist: BTreeMap<String, usize>,      // number of basic mappings of accepted layouts
-  mapper_steps: usize, reloads: usize, subst: usize,
+  mapper_steps: usize, reloads: usize, subst: usize, pretty_texts: usize, saved_texts: usize, saved_bytes: usize, input_files: (usize, usize, usize), input_file_formats: (usize, usize, usize), input_file_differs: usize,
   samples: Vec<String>,
 }
 
@@ -195,12 +204,42 @@ impl Sink {
     let _ = writeln!(rec, "T {}", text);
     let mut j = String::new(); enc_value(v, &mut j);
     let _ = writeln!(rec, "J{}", j);
+    // the text serde_json's pretty printer writes for this Value (compared byte for byte with JsonText.print_pretty)
+    if let Ok(p) = serde_json::to_string_pretty(v) { if p.len() <= TEXT_LIMIT { let _ = writeln!(rec, "P {}", text::esc_line(&p)); self.stats.pretty_texts += 1; } }
     if let Some(b) = basic {
       let _ = writeln!(rec, "B {}", b.mappings.len());
       for m in &b.mappings { let _ = writeln!(rec, "{}", mapping_line(m)); }
     }
     let o = real_load(v);
     Sink::outcome_lines(&o, "R", &mut rec);
+    // the input as a layout FILE: the same Value written as text (pretty / compact / re-spaced, chosen by a hash of
+    // the text so that the value stream keeps its sequence) and read by the real load_layout_from_file; the outcome must
+    // be the in-memory one (checked by the model side, which also runs JsonText.load_text on the same bytes)
+    {
+      let mut h: u64 = 1469598103934665603; for b in text.bytes() { h ^= b as u64; h = h.wrapping_mul(1099511628211); }
+      let fmt = (h >> 17) % 8;
+      let pretty = serde_json::to_string_pretty(v).unwrap_or_else(|_| "null".to_string());
+      let (tag, bytes): (String, Vec<u8>) = if pretty.len() > TEXT_LIMIT { ("".to_string(), vec![]) }
+        else if fmt < 4 { self.stats.input_file_formats.0 += 1; ("=P".to_string(), pretty.into_bytes()) }
+        else if fmt < 7 { self.stats.input_file_formats.1 += 1; ("=T".to_string(), text.clone().into_bytes()) }
+        else { self.stats.input_file_formats.2 += 1; let mut r2 = Rng::new(h); let b = text::respace(&mut r2, pretty.as_bytes(), false); (text::esc_line(&String::from_utf8_lossy(&b)), b) };
+      if !tag.is_empty() {
+        let path = self.tmp.clone();
+        if std::fs::write(&path, &bytes).is_ok() {
+          let r3 = catch_unwind(AssertUnwindSafe(|| crate::layout_loading::load_layout_from_file(&path)));
+          let o3 = match r3 { Err(_) => Outcome::Panic, Ok(Err(e)) => Outcome::Err(e), Ok(Ok(l3)) => Outcome::Ok(l3) };
+          let same = match (&o, &o3) {
+            (Outcome::Ok(a), Outcome::Ok(b)) => a.mappings == b.mappings,
+            (Outcome::Err(_), Outcome::Err(_)) => true,
+            (Outcome::Panic, Outcome::Panic) => true,
+            _ => false,
+          };
+          match &o3 { Outcome::Ok(_) => self.stats.input_files.0 += 1, Outcome::Err(_) => self.stats.input_files.1 += 1, Outcome::Panic => self.stats.input_files.2 += 1 }
+          let _ = writeln!(rec, "F {}", tag);
+          if same { let _ = writeln!(rec, "RF SAME"); } else { self.stats.input_file_differs += 1; Sink::outcome_lines(&o3, "RF", &mut rec); }
+        }
+      }
+    }
     let st = &mut self.stats;
     st.cases += 1;
     let e = st.by_kind.entry(kind.to_string()).or_insert((0, 0, 0));
@@ -234,6 +273,14 @@ impl Sink {
                 _ => false,
               };
               if !same { let _ = writeln!(rec, "W load_layout_from_file-on-the-saved-file-differs-from-parse+convert-on-to_value"); }
+              // the bytes of the saved file (compared with JsonText.save_text; JsonText.load_text on them is
+              // compared with what load_layout_from_file answered)
+              if let Ok(bytes) = std::fs::read(&path) {
+                if bytes.len() <= TEXT_LIMIT {
+                  if let Ok(t) = String::from_utf8(bytes) { let _ = writeln!(rec, "PL {}", text::esc_line(&t)); st.saved_texts += 1; st.saved_bytes += t.len(); }
+                  else { let _ = writeln!(rec, "W the-saved-file-is-not-UTF-8"); }
+                }
+              }
             } else { let _ = writeln!(rec, "W cannot-write-the-saved-layout-file"); }
           }
           st.reloads += 1;
@@ -268,11 +315,25 @@ const DISABLED_NAMES: &[&str] = &["Disabled", "disabled", "DISABLED", "DisableD"
 
 fn printable(rng: &mut Rng) -> char { (32u8 + rng.below(95) as u8) as char }
 
+// characters that mean something to a JSON reader; they are ordinary letters of a row
+const SYNTAX_CHARS: &[char] = &['\\', '"', ',', '}', ']', '{', '[', ':', '\\', '/'];
+
 fn letters(rng: &mut Rng, maxlen: usize) -> String {
   let n = rng.below(maxlen + 1);
-  let mut s = String::new();
-  for _ in 0..n { if rng.chance(1, 4) { s.push(' '); } else { s.push(printable(rng)); } }
-  s
+  let mut v: Vec<char> = vec![];
+  let syntaxy = rng.chance(1, 3);
+  for _ in 0..n {
+    if rng.chance(1, 4) { v.push(' '); }
+    else if syntaxy && rng.chance(1, 3) { v.push(*rng.pick(SYNTAX_CHARS)); }
+    else { v.push(printable(rng)); }
+  }
+  if syntaxy && n >= 1 {
+    // a comma directly before a closing bracket, inside the string
+    if n >= 3 && rng.chance(1, 2) { let i = rng.below(n - 1); v[i] = ','; v[i + 1] = *rng.pick(&['}', ']']); }
+    // a backslash (or a quote) as the LAST character of the string
+    if rng.chance(1, 2) { v[n - 1] = if rng.chance(3, 4) { '\\' } else { '"' }; }
+  }
+  v.into_iter().collect()
 }
 
 struct Ctx { aliases: Vec<String>, alias_defs: Vec<(String, Vec<String>)> }
@@ -835,6 +896,29 @@ pub fn main(args: &[String]) -> i32 {
   }
   // (e) single-scalar substitutions in row and repeat names
   subst_blocks(&mut sink, &mut rng, thorough);
+  // (f) the JSON text layer: generated texts through the real serde_json readers (and layout files through
+  // load_layout_from_file); a random stream of its own, derived from the same seed
+  let tstats = {
+    let mut lrng = Rng::new(seed ^ 0x6c61_796f_7574);
+    let layouts: Vec<Layout> = (0..64).map(|_| gen_basic(&mut lrng, &keys)).collect();
+    // texts of shorthand layouts (pretty and compact) as the raw material of the malformed-file stream
+    let mut bases: Vec<Vec<u8>> = vec![];
+    for i in 0..160 {
+      let v = gen_valid(&mut lrng, &names);
+      let t = if i % 2 == 0 { serde_json::to_string_pretty(&v) } else { serde_json::to_string(&v) };
+      if let Ok(t) = t { bases.push(t.into_bytes()); }
+    }
+    let nf = sink.files.len();
+    let tmp = format!("{}/text-layout.json", out);
+    let files = &mut sink.files;
+    let mut write = |bytes: &[u8], rec: &str| {
+      let mut h: u64 = 1469598103934665603; for b in bytes { h ^= *b as u64; h = h.wrapping_mul(1099511628211); }
+      let _ = files[(h % nf as u64) as usize].write_all(rec.as_bytes());
+    };
+    let mut ts = text::TextSink { next_id: 1_000_000, stats: text::TextStats::new(), tmp, write: &mut write };
+    text::run(&mut ts, seed, scale, &layouts, &bases);
+    ts.stats
+  };
 
   for f in sink.files.iter_mut() { let _ = f.flush(); }
   let st = &sink.stats;
@@ -849,6 +933,19 @@ pub fn main(args: &[String]) -> i32 {
   dist.insert("mapper_steps".into(), json!(st.mapper_steps));
   dist.insert("substitution_cases".into(), json!(st.subst));
   dist.insert("key_codes".into(), json!(keys.len()));
+  dist.insert("pretty_texts_of_input_values".into(), json!(st.pretty_texts));
+  dist.insert("input_layout_files_loaded_ok_err_panic".into(), json!([st.input_files.0, st.input_files.1, st.input_files.2]));
+  dist.insert("input_layout_files_pretty_compact_respaced".into(), json!([st.input_file_formats.0, st.input_file_formats.1, st.input_file_formats.2]));
+  dist.insert("input_layout_files_differing_from_in_memory_load".into(), json!(st.input_file_differs));
+  dist.insert("saved_layout_files".into(), json!(st.saved_texts));
+  dist.insert("saved_layout_file_bytes".into(), json!(st.saved_bytes));
+  dist.insert("text_cases_by_kind_ok_err".into(), json!(tstats.by_kind.iter().map(|(k, v)| (k.clone(), json!([v.0, v.1]))).collect::<Map<String, Value>>()));
+  dist.insert("text_cases".into(), json!(tstats.by_kind.values().map(|v| v.0 + v.1).sum::<usize>()));
+  dist.insert("text_cases_ok".into(), json!(tstats.by_kind.values().map(|v| v.0).sum::<usize>()));
+  dist.insert("text_cases_err".into(), json!(tstats.by_kind.values().map(|v| v.1).sum::<usize>()));
+  dist.insert("text_bytes".into(), json!(tstats.bytes));
+  dist.insert("text_real_readers_disagree".into(), json!(tstats.readers_disagree));
+  dist.insert("layout_text_files_loaded_ok_err_panic".into(), json!([tstats.layout_loads.0, tstats.layout_loads.1, tstats.layout_loads.2]));
   println!("DIST {}", Value::Object(dist));
   for s in &st.samples { println!("SAMPLE {}", s); }
   println!("loader: cases={} ok={} err={} panic={} reloads={} subst={} keys={}", st.cases, st.ok, st.err, st.panic, st.reloads, st.subst, keys.len());
